@@ -64,11 +64,48 @@ Proof. exact h265_vps_spec. Qed.
 Print Assumptions C15_h265_vps_spec.
 
 (* AudioSpecificConfig: rate index 0..12 and the 24-bit escape, AOT escape, hierarchical and
-   backward-compatible SBR / PS signalling *)
+   backward-compatible SBR / PS signalling; every object type 1..95 (its specific configuration
+   being bits the parser does not read), channelConfiguration 0..7 (0 with a
+   program_config_element: 0 is reported), and ALS (AOT 36), whose ALSSpecificConfig overrides
+   both values: sample rate = samp_freq, channel count = channels + 1 *)
 Theorem C15_asc_spec : forall e,
   asc_wf e = true -> go_asc (asc_bytes e) = Some (spec_rate e, spec_channels e).
 Proof. exact asc_spec. Qed.
 Print Assumptions C15_asc_spec.
+
+(* what spec_rate / spec_channels say for ALS, in the property's words *)
+Theorem C15_asc_als_values : forall e,
+  is_als (get e ka_aot) = true ->
+  spec_rate e = get e ka_als_freq /\ spec_channels e = get e ka_als_chan + 1.
+Proof. intros e H. unfold spec_rate, spec_channels. rewrite H. split; reflexivity. Qed.
+Print Assumptions C15_asc_als_values.
+
+(* the guard payload_ok of asc_wf (no accidental 0x2b7 in the unread bits) is automatic for
+   AAC main/LC/SSR/LTP with channelConfiguration 1..7 and for Layer 1-3 *)
+Theorem C15_asc_payload_ok_plain : forall e,
+  (is_ga (get e ka_aot) && negb (get e ka_chan =? 0)) || is_layer (get e ka_aot) = true ->
+  payload_ok e = true.
+Proof. exact payload_ok_plain. Qed.
+Print Assumptions C15_asc_payload_ok_plain.
+
+(* non-vacuity for ALS: 5.1 at 192 kHz behind sampling index 3 *)
+Example C15_asc_als_nonvacuous :
+  asc_wf asc_als51 = true /\ go_asc (asc_bytes asc_als51) = Some (192000, 6).
+Proof. exact asc_als_nonvacuous. Qed.
+
+(* known finding: an ALS configuration with 256 channels is reported with 0 (uint8 count) *)
+Theorem C15_asc_als_wide_refuted :
+  asc_wf_gen 65535 asc_als256 = true /\ spec_channels asc_als256 = 256 /\
+  go_asc (asc_bytes asc_als256) = Some (48000, 0).
+Proof. exact asc_als_wide_refuted. Qed.
+Print Assumptions C15_asc_als_wide_refuted.
+
+(* the class payload_ok excludes: opaque specific-config bits spelling a sync extension *)
+Theorem C15_asc_false_sync_refuted :
+  payload_ok asc_false_sync = false /\ spec_rate asc_false_sync = 48000 /\
+  go_asc (asc_bytes asc_false_sync) = Some (24000, 2).
+Proof. exact asc_false_sync_refuted. Qed.
+Print Assumptions C15_asc_false_sync_refuted.
 
 (* totality: every decoder is a total function (structural recursion, no fuel) that answers with
    an error or a result, and a successful parse leaves a suffix of its input: no bit outside the
